@@ -31,6 +31,19 @@ func HarnessDrainQuiescent() {
 	svc, _ := vInstallOldService(router, topts)
 	_ = svc
 	cmd := vChoose("command", 3) // 0 redeploy, 1 pause, 2 stop
+	// rollout scenario: the service also has a rollout target, the clients have opted in to it, and the rollout may be
+	// stopped (`rollout stop`) while their requests are in flight there; pause / stop must still drain that target
+	rolloutScenario := !vDirected && vParam("rollout", 0) == 1
+	if rolloutScenario {
+		vAssume(cmd != 0)
+		t, _ := NewTarget("rold:80", topts)
+		t.state = TargetStateHealthy
+		rlb := &LoadBalancer{healthy: TargetList{}, all: TargetList{t}}
+		t.stateConsumer = rlb
+		rlb.updateHealthyTargets()
+		svc.rollout = rlb
+		svc.rolloutController = NewRolloutController(0, []string{"x"})
+	}
 	if fc := vParam("only_command", -1); fc >= 0 {
 		vAssume(cmd == fc)
 	}
@@ -73,7 +86,11 @@ func HarnessDrainQuiescent() {
 			vAssume(arrival == 0)
 		}
 		plan := &vProxyPlan{}
-		switch vChoose("plan"+vItoa(c), 4) {
+		planKind := vChoose("plan"+vItoa(c), 4)
+		if fp := vParam("racer_plan", -1); fp >= 0 {
+			vAssume(planKind == fp)
+		}
+		switch planKind {
 		case 0:
 			plan.service = vDur("service_time" + vItoa(c))
 			plan.upgradeHeader = vChoose("upgrade_header"+vItoa(c), 2) == 1
@@ -85,6 +102,7 @@ func HarnessDrainQuiescent() {
 			plan.hijackLate = true
 			plan.service = vDur("upgrade_after" + vItoa(c))
 		}
+		plan.cookie = rolloutScenario
 		vProxyPlans[c] = plan
 		spawnClients = append(spawnClients, func() {
 			go func() {
@@ -115,6 +133,12 @@ func HarnessDrainQuiescent() {
 		if vIndexOf("forward_begin", -1) >= 0 {
 			svc.active.all[0].HealthCheckCompleted(false)
 		}
+	}
+	if rolloutScenario && !commandFirst && vChoose("rollout_stopped_first", 2) == 1 {
+		vBlockUntil(func() bool {
+			return vIndexOf("forward_begin", -1) >= 0 || vClientResults[0] != nil || clientsParked > 0
+		})
+		vAssert(router.StopRollout("svc") == nil, "drain: rollout stop accepted")
 	}
 	// the command runs in its own goroutine; whether it or the clients were started first decides whom the
 	// delay-bounded scheduler favours, so both orders are explored
@@ -152,6 +176,9 @@ func HarnessDrainQuiescent() {
 	vAssert(err == nil, "drain: command succeeds")
 
 	drained := "old:80"
+	if rolloutScenario {
+		drained = "rold:80"
+	}
 	drainBeginIdx := vIndexOf("drain_begin", -1)
 	drainBeginAt := int64(-1)
 	if drainBeginIdx >= 0 {
@@ -229,5 +256,5 @@ func HarnessDrainQuiescent() {
 	}
 	vCover(drainBeginIdx >= 0, "drain reachable")
 	vCover(vClientResults[0] != nil && vClientResults[0].status == 504, "504 at drain deadline reachable")
-	vCover(vClientResults[0] != nil && vClientResults[0].status == 200, "normal completion reachable")
+	vCover(holder || vClientResults[0] != nil && vClientResults[0].status == 200, "normal completion reachable")
 }
